@@ -539,7 +539,11 @@ InsertKey ==
 \* n levels deep (Kids down, Parent up).  Cycles are what the `already_seen` sets stop; a chain has none, and what it
 \* costs is depth.  TLC writes the update with ChainModelLen objects (offsets and all, so that the StrictReader reads
 \* it); the worker rebuilds the same update with n objects, n around and far beyond every limit.
-ChainKinds == {"length", "length.objstm", "prev", "kids"}
+\* Amplification kinds: "nested" - stream objects written inside one another, all closed by one endstream (every Length
+\* and every cross-reference entry exact; the data of object k contains objects k+1 ...: what is kept is quadratic in
+\* what was read); "bigfirst" - one stream of 128 bytes per object of the update in front of n small objects (reading
+\* an object must not cost time proportional to its offset).
+ChainKinds == {"length", "length.objstm", "prev", "kids", "nested", "bigfirst"}
 ChainLengths == {10, 100, 300, 1000, 3000, 10000, 100000}
 ChainFirst == 70001
 ChainModelLen == 3
@@ -565,11 +569,18 @@ T_prev == <<47, 80, 114, 101, 118, 32>>
 T_root == <<47, 82, 111, 111, 116, 32>>
 T_startxref == <<62, 62, 10, 115, 116, 97, 114, 116, 120, 114, 101, 102, 10>>
 T_eof == <<10, 37, 37, 69, 79, 70, 10>>
+T_nhead == <<32, 48, 32, 111, 98, 106, 10, 60, 60, 47, 76, 101, 110, 103, 116, 104, 32>>
+T_nmid == <<62, 62, 115, 116, 114, 101, 97, 109, 10>>
+T_ntail == <<120, 10, 101, 110, 100, 115, 116, 114, 101, 97, 109, 10, 101, 110, 100, 111, 98, 106, 10>>
+T_empty == <<60, 60, 62, 62>>
 T_emptysect == <<120, 114, 101, 102, 10, 48, 32, 48, 10>>
 
 ChainBody(kind, i, m) ==      \* the i-th of m objects; object numbers ChainFirst .. ChainFirst + m - 1
     LET nxt == Num(ChainFirst + i) prv == Num(ChainFirst + i - 2) IN
-    IF kind = "length" THEN (IF i = m THEN T_len3 ELSE T_lenref \o nxt \o T_R \o T_lenstream)
+    IF kind = "bigfirst" THEN (IF i = 1 THEN T_lenref \o Num(128 * m) \o T_close \o <<10>> \o KwStream \o <<10>> \o [q \in 1..(128 * m) |-> 120]
+                                             \o <<10>> \o KwEndstream
+                               ELSE T_empty)
+    ELSE IF kind = "length" THEN (IF i = m THEN T_len3 ELSE T_lenref \o nxt \o T_R \o T_lenstream)
     ELSE IF kind = "length.objstm" THEN (IF i = m THEN T_os5 ELSE T_osref \o nxt \o T_R \o T_osstream)
     ELSE IF i = 1 THEN T_catalog \o nxt \o T_R \o T_close
     ELSE IF i = m THEN T_page \o prv \o T_R \o T_close
@@ -584,7 +595,14 @@ ChainUpdate(kind, m, start, hdr, prevsx) ==
                         sect == T_emptysect \o T_trailer \o Num(ChainFirst) \o T_prev \o acc.p \o T_startxref \o Num(x) \o T_eof
                     IN [b |-> acc.b \o sect, p |-> Num(x)],
                  [b |-> <<>>, p |-> prevsx], [j \in 1..m |-> j]).b
-    ELSE LET objs == FoldLeft(LAMBDA acc, i :
+    ELSE LET nh(i, len) == Num(ChainFirst + i - 1) \o T_nhead \o Pad10(Num(len)) \o T_nmid              \* header of nested object i
+             suf[i \in 1..(m + 1)] == IF i > m THEN 0 ELSE Len(nh(i, 0)) + suf[i + 1]                   \* bytes of the headers i .. m
+             objs == IF kind = "nested"
+                     THEN FoldLeft(LAMBDA acc, i :
+                            [b |-> acc.b \o nh(i, suf[i + 1] + 1) \o (IF i = m THEN T_ntail ELSE <<>>),
+                             offs |-> Append(acc.offs, start + Len(acc.b) - hdr)],
+                            [b |-> <<>>, offs |-> <<>>], [i \in 1..m |-> i])
+                     ELSE FoldLeft(LAMBDA acc, i :
                         [b |-> acc.b \o Num(ChainFirst + i - 1) \o T_obj \o ChainBody(kind, i, m) \o T_endobj,
                          offs |-> Append(acc.offs, start + Len(acc.b) - hdr)],
                         [b |-> <<>>, offs |-> <<>>], [i \in 1..m |-> i])
